@@ -108,14 +108,7 @@ fn run_entry(
                 (
                     Ok(txt),
                     0,
-                    MonSnap {
-                        calls: 0,
-                        violations: Vec::new(),
-                        path: 0,
-                        touched_hi: 0,
-                        straddles: 0,
-                        log: None,
-                    },
+                    MonSnap::none(),
                 )
             })
         }
@@ -221,6 +214,9 @@ fn exec_c02(case: &Case, obs: &mut Obs) -> Result<(), Failure> {
             _ => Ok(()), // other panics: C13's business
         };
     }
+    if let ReaderCfg::Refusing(_) = &case.reader {
+        return exec_c02_read_faults(case, cls, obs);
+    }
     // the reader users have; a panic here is C01's business, not C02's
     let base = run_entry(&case.bytes, &case.entry, &ReaderCfg::Real, false);
     let sim = run_entry(&case.bytes, &case.entry, &case.reader, true);
@@ -284,6 +280,132 @@ fn exec_c02(case: &Case, obs: &mut Obs) -> Result<(), Failure> {
         }
     }
     Ok(())
+}
+
+/// Read-fault injection: the reader declines `bytes()` requests that cross a
+/// discontinuity of its storage. Not a conforming reader, so the result
+/// need not equal SliceReader's; what must hold: every unchecked request
+/// still lies within the input, and the result differs from the fault-free
+/// one only by read errors (never by wrong data or by blaming the message).
+fn exec_c02_read_faults(case: &Case, cls: &str, obs: &mut Obs) -> Result<(), Failure> {
+    obs.steps += 1;
+    let fail = |oracle: &str, detail: String| {
+        Failure::new(
+            "C02",
+            oracle,
+            cls,
+            format!(
+                "{:?} via a reader that declines requests across {:?} on {} octets {}: {}",
+                case.entry,
+                case.reader,
+                case.bytes.len(),
+                to_hex(&case.bytes[..case.bytes.len().min(64)]),
+                detail
+            ),
+        )
+    };
+    match &case.entry {
+        Entry::Reveal { .. } => Ok(()),
+        Entry::Greedy => {
+            let base = match decode_avps(&case.bytes, &ReaderCfg::Real, false) {
+                Ok(o) => o,
+                Err(_) => return Ok(()),
+            };
+            let got = match decode_avps(&case.bytes, &case.reader, false) {
+                Ok(o) => o,
+                Err(_) => return Ok(()), // C01
+            };
+            obs.reader_calls += got.mon.calls;
+            if let Some(v) = got.mon.violations.first() {
+                return Err(fail("reader-precondition", v.clone()));
+            }
+            if got.mon.refusals.is_empty() {
+                obs.count("probe:refusing-reader-no-fault-fired");
+            } else {
+                obs.add("fault:read-declined", got.mon.refusals.len() as u64);
+            }
+            if hidden_payload_declined(&case.bytes, &got.mon.refusals) {
+                obs.count("skipped:hidden-payload-declined-unspecified");
+                return Ok(());
+            }
+            if base.items.len() != got.items.len() {
+                return Err(fail(
+                    "read-fault-changes-only-read-errors",
+                    format!("{} items without the fault, {} with it", base.items.len(), got.items.len()),
+                ));
+            }
+            for (i, (b, g)) in base.items.iter().zip(got.items.iter()).enumerate() {
+                let ok = match (b, g) {
+                    (Ok(x), Ok(y)) => {
+                        x == y || (!got.mon.refusals.is_empty() && x.is_hidden() && y.is_hidden() && x.attr == y.attr && matches!(&y.val, Val::Hidden(v) if v.is_empty()))
+                    }
+                    (Err(x), Err(y)) if x == y => true,
+                    (_, Err(y)) => !got.mon.refusals.is_empty() && crate::conv::err_kind(y).is_none(),
+                    _ => false,
+                };
+                if !ok {
+                    return Err(fail(
+                        "read-fault-changes-only-read-errors",
+                        format!(
+                            "item #{i}: {:?} without the fault, {:?} with it ({} request(s) declined)",
+                            b.as_ref().map_err(|e| errs_text(std::slice::from_ref(e))),
+                            g.as_ref().map_err(|e| errs_text(std::slice::from_ref(e))),
+                            got.mon.refusals.len()
+                        ),
+                    ));
+                }
+            }
+            Ok(())
+        }
+        Entry::TryRead | Entry::Validate(_) => {
+            let opts = match &case.entry {
+                Entry::Validate(i) => Some(Opts::from_index(*i)),
+                _ => None,
+            };
+            let base = match decode_msg(&case.bytes, opts, &ReaderCfg::Real, false) {
+                Ok(o) => o,
+                Err(_) => return Ok(()),
+            };
+            let got = match decode_msg(&case.bytes, opts, &case.reader, false) {
+                Ok(o) => o,
+                Err(_) => return Ok(()),
+            };
+            obs.reader_calls += got.mon.calls;
+            if let Some(v) = got.mon.violations.first() {
+                return Err(fail("reader-precondition", v.clone()));
+            }
+            if got.mon.refusals.is_empty() {
+                obs.count("probe:refusing-reader-no-fault-fired");
+                let same = match (&base.result, &got.result) {
+                    (Ok(a), Ok(b)) => a == b,
+                    (Err(a), Err(b)) => a == b,
+                    _ => false,
+                };
+                if !same || base.remaining != got.remaining {
+                    return Err(fail(
+                        "same-result-on-every-reader",
+                        format!("no request was declined, yet {} (remaining {}) instead of {} (remaining {})", result_text(&got.result), got.remaining, result_text(&base.result), base.remaining),
+                    ));
+                }
+                return Ok(());
+            }
+            obs.add("fault:read-declined", got.mon.refusals.len() as u64);
+            if hidden_payload_declined(&case.bytes, &got.mon.refusals) {
+                obs.count("skipped:hidden-payload-declined-unspecified");
+                return Ok(());
+            }
+            read_fault_consistent(&base.result, &got.result).map_err(|d| fail("read-fault-changes-only-read-errors", d))?;
+            // a control message is consumed to its declared end whatever its AVPs do
+            let is_control = case.bytes.first().map_or(false, |b| b & 1 != 0);
+            if is_control && got.remaining != base.remaining {
+                return Err(fail(
+                    "read-fault-keeps-position",
+                    format!("{} octets remain after the call, {} without the fault", got.remaining, base.remaining),
+                ));
+            }
+            Ok(())
+        }
+    }
 }
 
 fn shrink_case(c: &Case) -> Vec<Case> {
@@ -476,6 +598,24 @@ fn deliver_all<S: Scenario<Case = Case>>(
             entry: Entry::Greedy,
             reader: sim_reader,
         });
+        // read faults: a reader that declines spans across discontinuities
+        if full || rng.chance(1, 3) {
+            let rf = draw_refusing(rng, b.len());
+            ctx.obs.count("fault:reader-declines-spans");
+            ctx.check::<S>(&Case {
+                bytes: b.clone(),
+                entry: Entry::Validate(rng.below(8) as u8),
+                reader: rf.clone(),
+            });
+            if let ReaderCfg::Refusing(c) = &rf {
+                let c2: Vec<usize> = c.iter().filter(|&&x| x > body_from).map(|x| x - body_from).collect();
+                ctx.check::<S>(&Case {
+                    bytes: b[body_from..].to_vec(),
+                    entry: Entry::Greedy,
+                    reader: ReaderCfg::Refusing(c2),
+                });
+            }
+        }
     } else {
         // C02: every monitored back-end on the lax and the strict receiver
         let readers = if full {
@@ -488,7 +628,17 @@ fn deliver_all<S: Scenario<Case = Case>>(
         } else {
             vec![sim_reader]
         };
+        let mut readers = readers;
+        if full || rng.chance(1, 3) {
+            ctx.obs.count("fault:reader-declines-spans");
+            readers.push(draw_refusing(rng, b.len()));
+        }
         for r in readers {
+            let r = match r {
+                // the AVP list starts 12 octets in
+                ReaderCfg::Refusing(c) => ReaderCfg::Refusing(c),
+                other => other,
+            };
             let i = if rng.bool() { 0 } else { rng.below(8) as u8 };
             ctx.check::<S>(&Case {
                 bytes: b.clone(),
